@@ -1196,6 +1196,13 @@ func main() {
 	writeIfChanged(filepath.Join(*out, "GenSites.v"), w.Bytes())
 	fmt.Printf("go2v: GenSites.v %d go statements, %d pool sites\n", ng, np)
 
+	// GenCkSites.v (C02): every operation on a pooled checksum object (cksites.go)
+	w.Reset()
+	fmt.Fprintf(&w, header, *repo)
+	nck := root.ckSites(&w, "ck_sites")
+	writeIfChanged(filepath.Join(*out, "GenCkSites.v"), w.Bytes())
+	fmt.Printf("go2v: GenCkSites.v %d pooled-checksum sites\n", nck)
+
 	// GenWaitSites.v (C05): blocking statements of the outbound call path (waitsites.go)
 	w.Reset()
 	fmt.Fprintf(&w, header, *repo)
